@@ -31,6 +31,10 @@ intEnumValues = {
 }
 
 
+# the immediate of intc/bytec is a single byte
+MAX_BLOCK_ENTRIES = 256
+
+
 def extractIntValue(op: TealOp) -> Union[str, int]:
     """Extract the constant value being loaded by a TealOp whose op is Op.int.
 
@@ -161,10 +165,14 @@ def createConstantBlocks(ops: List[TealComponent]) -> List[TealComponent]:
         if intFreqs[val] > 1 and (i < 4 or isinstance(val, str) or val >= 2**7)
     ]
 
+    # intc and bytec take a one-byte index, so only the first 256 entries of a block are
+    # addressable; any further repeated constants are loaded with pushint/pushbytes instead.
+    intBlock = intBlock[:MAX_BLOCK_ENTRIES]
+
+    bytesInBlock = [b for b in sortedBytes if byteFreqs[b] > 1][:MAX_BLOCK_ENTRIES]
+
     byteBlock = [
-        ("0x" + b.hex()) if type(b) is bytes else cast(str, b)
-        for b in sortedBytes
-        if byteFreqs[b] > 1
+        ("0x" + b.hex()) if type(b) is bytes else cast(str, b) for b in bytesInBlock
     ]
 
     if len(intBlock) != 0:
@@ -214,7 +222,7 @@ def createConstantBlocks(ops: List[TealComponent]) -> List[TealComponent]:
                         "Expect a byte-like constant opcode, get {}".format(op)
                     )
 
-                if byteFreqs[byteValue] == 1:
+                if byteValue not in bytesInBlock:
                     encodedValue = (
                         ("0x" + byteValue.hex())
                         if type(byteValue) is bytes
@@ -225,7 +233,7 @@ def createConstantBlocks(ops: List[TealComponent]) -> List[TealComponent]:
                     )
                     continue
 
-                index = sortedBytes.index(byteValue)
+                index = bytesInBlock.index(byteValue)
                 if index == 0:
                     assembled.append(TealOp(op.expr, Op.bytec_0, "//", *op.args))
                 elif index == 1:
